@@ -54,10 +54,21 @@ def genBounded (r bound : Nat) : Nat := (r * bound) >>> 64
 def firstCandidate (candidates : BitVec 64) (r : Nat) : BitVec 64 :=
   findBit candidates (fun count => BitVec.ofNat 64 (genBounded r count.toNat + 1))
 
+/-- `ShuffledStealers::new`: the candidate set right-rotated (within the `n = stealers.len()` low bits) so that the
+first candidate `pos` becomes the LSB.  The left shift is by `n - pos`: in Rust a shift by the word width panics when
+overflow checks are on and shifts by 0 otherwise, so the model is faithful for `n - pos < 64` only. -/
+def rotate (c pos n : BitVec 64) : BitVec 64 :=
+  let lower := c &&& ((1#64 <<< pos) - 1#64)
+  (c >>> pos) ||| (lower <<< (n - pos))
+
+/-- the amount of the left shift in `ShuffledStealers::new` -/
+def rotateShift (n pos : Nat) : Nat := n - pos
+
 /-- the bodies the model was transcribed from (comments stripped, white space normalised) -/
 def findBitSrcModelled : String := "const P: usize = usize::BITS.trailing_zeros() as usize; const M: [usize; P] = sum_masks(); const _: () = assert!(usize::BITS.is_power_of_two()); const _: () = assert!(P >= 2); let mut sum = [0; P + 1]; sum[0] = value; sum[1] = value - ((value >> 1) & M[0]); sum[2] = (sum[1] & M[1]) + ((sum[1] >> 2) & M[1]); for p in 2..P { sum[p + 1] = (sum[p] + (sum[p] >> (1 << p))) & M[p]; } let mut rank = rank_fn(sum[P]); let mut shift = 0usize; for p in (0..P).rev() { let sub_mask = (1 << (1 << p)) - 1; let lower_sum = (sum[p] >> shift) & sub_mask; let cmp_mask = ((lower_sum as isize - rank as isize) >> (isize::BITS - 1)) as usize; rank -= lower_sum & cmp_mask; shift += (1 << p) & cmp_mask; } shift"
 def sumMasksSrcModelled : String := "const P: usize = usize::BITS.trailing_zeros() as usize; const _: () = assert!( usize::BITS == 1 << P, \"sum masks are only supported for `usize` with a power-of-two bit width\" ); let mut m = [0usize; P]; let mut p = 0; while p != P { m[p] = !0 / (1 + (1 << (1 << p))); p += 1; } m"
 def genBoundedSrcModelled : String := "((self.gen() as u128 * upper_bound as u128) >> 64) as u64"
+def stealNewSrcModelled : String := "let (candidates, next_candidate) = if candidates == 0 { (0, 0) } else { let next_candidate = bit::find_bit(candidates, |count| { rng.gen_bounded(count as u64) as usize + 1 }); let candidate_count = stealers.len(); let lower_bits = candidates & ((1 << next_candidate) - 1); let candidates = (candidates >> next_candidate) | (lower_bits << (candidate_count - next_candidate)); (candidates, next_candidate) }; Self { stealers, candidates, next_candidate, }"
 def stealRankSrcModelled : String := "rng.gen_bounded(count as u64) as usize + 1"
 
 end NexoVerif.Steal
